@@ -14,6 +14,9 @@ type luaDecoder struct {
 	reader   io.Reader
 	finished bool
 	prefs    LuaPreferences
+	// tables on the path from the top level value to the one being converted
+	visiting   map[*lua.LTable]bool
+	cycleFound bool
 }
 
 func NewLuaDecoder(prefs LuaPreferences) Decoder {
@@ -106,6 +109,13 @@ func (dec *luaDecoder) convertToYamlNode(ls *lua.LState, lv lua.LValue) *Candida
 			Tag:  "!!map",
 		}
 		t := lv.(*lua.LTable)
+		// a table that (indirectly) holds itself has no finite document
+		if dec.visiting[t] {
+			dec.cycleFound = true
+			return &CandidateNode{Kind: ScalarNode, Tag: "!!null", Value: "null"}
+		}
+		dec.visiting[t] = true
+		defer delete(dec.visiting, t)
 		k, v := ls.Next(t, lua.LNil)
 		for k != lua.LNil {
 			if ki, ok := k.(lua.LNumber); i != 0 && ok && math.Mod(float64(ki), 1) == 0 && int(ki) == i {
@@ -160,7 +170,12 @@ func (dec *luaDecoder) Decode() (*CandidateNode, error) {
 	if err != nil {
 		return nil, err
 	}
+	dec.visiting = map[*lua.LTable]bool{}
+	dec.cycleFound = false
 	firstNode := dec.decideTopLevelNode(ls)
 	dec.finished = true
+	if dec.cycleFound {
+		return nil, fmt.Errorf("cannot decode a lua table that contains itself")
+	}
 	return firstNode, nil
 }
